@@ -424,7 +424,7 @@ def run_case(case, ctx):  # noqa: C901, PLR0912
             if s.deadlocked:
                 raise HarnessError(f"scheduler watchdog: no progress (results={results})")
             switches = s.switches
-            counters = {"yield_points": s.yields, "switches": s.switches}
+            counters = {"yield_points": s.yields, "switches": s.switches, "token_takeovers": s.steals}
             outs = []
             for i, r in enumerate(results):
                 if r[0] == "ok":
